@@ -100,6 +100,19 @@ def search(ctx, focus=None):
     for _ in range(ctx.n(10, 120)):
         seq = [rng.choice(docs) for _ in range(rng.randint(2, 6))]
         hist.append(seq)
+    # documents that drive a handler into its error path (an attribute on an element whose end handler expects pushed text; a stray end tag), then
+    # ordinary documents that use the same elements: nothing may be remembered
+    ns = 'xmlns:itunes="http://www.itunes.com/dtds/podcast-1.0.dtd" xmlns:dcterms="http://purl.org/dc/terms/" xmlns:media="http://search.yahoo.com/mrss/"'
+    victim = ('<rss version="2.0" %s><channel><title>v</title><itunes:keywords>a, b, c</itunes:keywords><item><title>i</title><itunes:keywords>x, y</itunes:keywords>'
+              '<dcterms:valid>start=2004-01-01;end=2005-01-01</dcterms:valid><media:keywords>k1, k2</media:keywords></item></channel></rss>' % ns)
+    triggers = ['<rss version="2.0" %s><channel><title>t</title><itunes:keywords xml:lang="en">a, b</itunes:keywords><item><dcterms:valid scheme="W3C-DTF">start=2004</dcterms:valid>'
+                '<media:keywords lang="en">q</media:keywords></item></channel></rss>' % ns,
+                '<rss version="2.0" %s><channel><title>t</title></content><item></newlocation><tags x="1">a b</tags></item></channel></rss>' % ns]
+    docs += [victim] + triggers
+    base.update(zip([victim] + triggers, pool.map(lambda d: job({"mode": "sequence", "docs": [H(d)]})[0], [victim] + triggers)))
+    for t in triggers:
+        hist.append([victim, t, victim])
+        hist.append([t, victim])
     hist.append([docs[2], docs[1]])      # a date only a low-priority handler accepts, then ambiguous dates
     hist.append([docs[0], docs[0], docs[1], docs[0]])
     for seq, res in zip(hist, pool.map(lambda s: job({"mode": "sequence", "docs": [H(d) for d in s]}), hist)):
